@@ -22,7 +22,7 @@ func init() { register(c14{}) }
 func (c14) Meta() core.Meta {
 	return core.Meta{
 		ID: "C14", Level: "exploration",
-		Rule: "case i = f(seed,i): C01 document whose leaf texts come from integers (incl. +-2^63, 2^64 boundaries), decimal/exponent/hex floats, overflowing numerals, every case and sign spelling of nan/inf/infinity, ParseBool spellings accepted and rejected, and ordinary text, in element, attribute and text-key positions; configuration = one of the 32 combinations of cast-to-int/float/bool, CastNanInf, skip-tag function (x simple-as-map, attribute/key prefix, lower). NewMapXml(doc) and NewMapXml(doc,true) (and the NewMapXmlSeq pair) are walked in lock step: same structure and keys; every un-cast leaf a string; every cast leaf == refCast(text, config, key); no NaN/Inf unless CastNanInf; Json() of the cast Map succeeds; x2j-wrapper.DocToJson(doc,true) succeeds. Non-trivial: at least one leaf changes type; distinct by hash(doc, flags).",
+		Rule:        "case i = f(seed,i): C01 document whose leaf texts come from integers (incl. +-2^63, 2^64 boundaries), decimal/exponent/hex floats, overflowing numerals, every case and sign spelling of nan/inf/infinity, ParseBool spellings accepted and rejected, and ordinary text, in element, attribute and text-key positions; configuration = one of the 32 combinations of cast-to-int/float/bool, CastNanInf, skip-tag function (x simple-as-map, attribute/key prefix, lower). NewMapXml(doc) and NewMapXml(doc,true) (and the NewMapXmlSeq pair) are walked in lock step: same structure and keys; every un-cast leaf a string; every cast leaf == refCast(text, config, key); no NaN/Inf unless CastNanInf; Json() of the cast Map succeeds; x2j-wrapper.DocToJson(doc,true) succeeds. Non-trivial: at least one leaf changes type; distinct by hash(doc, flags).",
 		Assumptions: []string{"strconv defines what a text denotes", "for text beside child elements only, the key shown to the skip function is unspecified (element tag or text key)"},
 		Anchors:     []string{"cast", "CastValuesToInt", "CastValuesToFloat", "CastValuesToBool", "CastNanInf", "SetCheckTagToSkipFunc", "xmlToMapParser", "xmlSeqToMapParser", "x2j-wrapper.DocToJson"},
 		Floors:      map[string]int64{"leaf:cast-to-int": 1000, "leaf:cast-to-float": 1000, "leaf:cast-to-bool": 500, "leaf:naninf-spelling-kept": 1000, "leaf:naninf-cast": 100, "leaf:skipped-by-func": 300, "pos:attr": 5000, "pos:textkey": 2000, "pos:element": 5000},
@@ -37,7 +37,7 @@ func (c14) Cases(tier string, race bool) int {
 	if tier == "thorough" {
 		return 400000
 	}
-	return 12000
+	return 40000
 }
 
 var c14texts = func() []string {
